@@ -14,6 +14,7 @@ type c06gBlock struct {
 	bid, hash, prev string
 	committed       bool
 	txns            []string
+	private         bool // on a state cache of its own (op fblk): never re-hashed
 }
 
 type c06gen struct {
@@ -145,7 +146,80 @@ func (g *c06gen) pickTxn() (string, bool) {
 	}
 }
 
+// constructors the plain histories never use: NewEmpty (several private worlds beside the case's caches),
+// NewBlockTxnCaches, a block cache on a fresh state cache
+func (g *c06gen) stepExtra() {
+	switch x := g.r.Intn(11); {
+	case x >= 8:
+		// a key written and then removed (or removed and then written) inside ONE block through two layers: the later
+		// operation must win, a removal must stay a removal even if the block wrote the key itself before
+		b := g.pickBlock(false)
+		if b == nil {
+			g.newBlock()
+			b = g.blocks[len(g.blocks)-1]
+		}
+		k := g.key()
+		g.nt++
+		t := fmt.Sprintf("t%d", g.nt)
+		b.txns = append(b.txns, t)
+		g.txns = append(g.txns, t)
+		if g.r.Intn(3) != 0 {
+			g.emit("bset %s %s %s", b.bid, k, g.val())
+			g.emit("txn %s %s", t, b.bid)
+			g.emit("trem %s %s", t, k)
+		} else {
+			g.emit("txn %s %s", t, b.bid)
+			g.emit("trem %s %s", t, k)
+			g.emit("tcommit %s", t)
+			g.emit("tset %s %s %s", t, k, g.val())
+		}
+		g.emit("tcommit %s", t)
+		g.emit("bget %s %s", b.bid, k)
+	case x < 4:
+		g.nt++
+		t := fmt.Sprintf("e%d", g.nt)
+		g.txns = append(g.txns, t)
+		g.emit("empty %s", t)
+		if g.r.Intn(2) == 0 {
+			g.emit("tset %s %s %s", t, g.key(), g.val())
+		}
+	case x < 6 || !g.noRemove:
+		g.nb++
+		g.nt++
+		bid, hash, t := fmt.Sprintf("b%d", g.nb), fmt.Sprintf("h%d", g.nb), fmt.Sprintf("t%d", g.nt)
+		prev := "-"
+		if len(g.blocks) > 0 {
+			prev = g.blocks[g.r.Intn(len(g.blocks))].hash
+		}
+		g.blocks = append(g.blocks, &c06gBlock{bid: bid, hash: hash, prev: prev, txns: []string{t}})
+		g.hashes = append(g.hashes, hash)
+		g.txns = append(g.txns, t)
+		g.emit("blktxn %s %s %s %s", bid, t, hash, prev)
+	default:
+		// same hashes as blocks of the shared world, on a state cache of its own (only without StateCache.Remove: the
+		// model keeps the private world in the shared map under prefixed hashes, a Remove would drop those too)
+		g.nb++
+		bid := fmt.Sprintf("b%d", g.nb)
+		hash, prev := fmt.Sprintf("h%d", g.nb), "-"
+		if len(g.blocks) > 0 {
+			o := g.blocks[g.r.Intn(len(g.blocks))]
+			if g.r.Intn(2) == 0 {
+				hash, prev = o.hash, o.prev
+			} else {
+				prev = o.hash
+			}
+		}
+		g.blocks = append(g.blocks, &c06gBlock{bid: bid, hash: hash, prev: prev, private: true})
+		g.emit("fblk %s %s %s", bid, hash, prev)
+		g.emit("bset %s %s %s", bid, g.key(), g.val())
+	}
+}
+
 func (g *c06gen) stepRandom() {
+	if g.r.Intn(16) == 0 {
+		g.stepExtra()
+		return
+	}
 	x := g.r.Intn(100)
 	switch {
 	case x < 18 || len(g.blocks) == 0:
@@ -207,7 +281,7 @@ func (g *c06gen) stepRandom() {
 			b.committed = true
 		}
 	case x < 74:
-		if b := g.pickBlock(false); b != nil && g.r.Intn(3) == 0 {
+		if b := g.pickBlock(false); b != nil && !b.private && g.r.Intn(3) == 0 {
 			g.nb++
 			nh := fmt.Sprintf("h%d", g.nb)
 			g.emit("bhash %s %s", b.bid, nh)
